@@ -26,8 +26,8 @@ type C09SrvMatch struct {
 	Rest   string   `json:"rest,omitempty"`
 }
 type C09SrvObs struct {
-	Text    string        `json:"text"`  // what MatchRawURL is given: the URL as net/url prints it, without the query
-	Full    string        `json:"full"`  // parsedURL.String()
+	Text    string        `json:"text"` // what MatchRawURL is given: the URL as net/url prints it, without the query
+	Full    string        `json:"full"` // parsedURL.String()
 	Matches []C09SrvMatch `json:"matches"`
 	Names   [][]string    `json:"names"`
 	NameErr []bool        `json:"name_errors"`
@@ -152,7 +152,10 @@ func c09SrvDirected() []C09SrvCase {
 // Servers declared on a path item replace the document's servers for that path and for no other
 // (Go side): a template is routed under its own server list only.
 func c09PathServers(meta *Meta) {
-	type obs struct{ kind int; tpl string }
+	type obs struct {
+		kind int
+		tpl  string
+	}
 	find := func(r routers.Router, method, target string) obs {
 		u, err := url.Parse(target)
 		if err != nil {
